@@ -1427,4 +1427,273 @@ theorem zkpokVerify_tapeFree (cs : Suite) (π : ZKPoK) (Cv : Int) (Ctv : Option 
   refine TapeFree.bind (nisp2secVerify_tapeFree _ _ _ _ _) fun _ => ?_
   exact TapeFree.ite _ (TapeFree.pure _) (rangeVerify_tapeFree _ _ _ _ _ _ _)
 
+/-! ## 12. The issuer: `blind_sign`, `update_signature` -/
+
+/-- Well-formed CL03 keys (what `KeyPair::generate` and `Bases::generate` produce): `N = p·q` for distinct
+primes, `b`, `c` units modulo `N`, `c ≥ 0`. -/
+structure KeysOK (pk : PublicKey) (sk : SecretKey) : Prop where
+  hp : Nat.Prime sk.p.toNat
+  hq : Nat.Prime sk.q.toNat
+  hpq : sk.p ≠ sk.q
+  hN : pk.N = sk.p * sk.q
+  hb : Int.gcd pk.b pk.N = 1
+  hc : Int.gcd pk.c pk.N = 1
+  hc0 : 0 ≤ pk.c
+
+theorem KeysOK.one_lt_N {pk : PublicKey} {sk : SecretKey} (hk : KeysOK pk sk) : 1 < pk.N := by
+  have h1 := hk.hp.two_le
+  have h2 := hk.hq.two_le
+  have h3 : 2 ≤ sk.p := by omega
+  have h4 : 2 ≤ sk.q := by omega
+  rw [hk.hN]; nlinarith
+
+/-- the (optionally) extended commitment of `blind_sign` / `update_signature`. -/
+def extOf (C : Commitment) (revealed : Option (List Int)) (pk : PublicKey) (bases : List Int)
+    (revIdx : Option (List Nat)) : M Commitment :=
+  match revealed, revIdx with
+  | some rm, some ri => extendCommitmentWithPk C rm pk bases (some ri)
+  | _, _ => pure C
+
+theorem extOf_tapeFree_aux (N : Int) (bases revealed : List Int) :
+    ∀ (ix : List Nat) (k : Nat) (acc : Int), TapeFree (extendLoop N bases revealed ix k acc) := by
+  intro ix
+  induction ix with
+  | nil => intro k acc; exact TapeFree.pure _
+  | cons i is ih =>
+    intro k acc
+    simp only [extendLoop]
+    refine TapeFree.bind (TapeFree.idx _ _) fun _ => ?_
+    refine TapeFree.bind (TapeFree.idx _ _) fun _ => ?_
+    exact TapeFree.bind (TapeFree.pw _ _ _) fun _ => ih _ _
+
+theorem extend_tapeFree (C : Commitment) (revealed : List Int) (pk : PublicKey) (bases : List Int)
+    (ri : Option (List Nat)) : TapeFree (extendCommitmentWithPk C revealed pk bases ri) := by
+  unfold extendCommitmentWithPk
+  dsimp only
+  refine TapeFree.ite _ TapeFree.panic ?_
+  exact TapeFree.bind (extOf_tapeFree_aux _ _ _ _ _ _) fun _ => TapeFree.pure _
+
+theorem extOf_tapeFree (C : Commitment) (revealed : Option (List Int)) (pk : PublicKey)
+    (bases : List Int) (ri : Option (List Nat)) : TapeFree (extOf C revealed pk bases ri) := by
+  unfold extOf
+  split
+  · exact extend_tapeFree _ _ _ _ _
+  · exact TapeFree.pure _
+
+theorem blindSign_eq (cs : Suite) (pk : PublicKey) (sk : SecretKey) (bases : List Int) (π : ZKPoK)
+    (revealed : Option (List Int)) (C : Commitment) (Ctv : Option Int) (cpk : Option CommitmentPK)
+    (U : List Nat) (revIdx : Option (List Nat)) :
+    blindSign cs pk sk bases π revealed C Ctv cpk U revIdx = (do
+      let ok ← zkpokVerify cs π C.value Ctv pk bases cpk U
+      if !ok then panic
+      else
+        let ext ← extOf C revealed pk bases revIdx
+        let k ← remaining
+        let e ← drawE cs ((sk.p - 1) * (sk.q - 1)) (k + 1)
+        let rprime ← randomBits cs.ls
+        let e2n ← ofOpt (invMod e ((sk.p - 1) * (sk.q - 1)))
+        let bs ← pw pk.b rprime pk.N
+        let v ← pw (ext.value * bs * pk.c) e2n pk.N
+        pure ⟨e, rprime, v⟩) := rfl
+
+theorem updateSignature_eq (β : BlindSignature) (revealed : Option (List Int)) (C : Commitment)
+    (sk : SecretKey) (pk : PublicKey) (bases : List Int) (revIdx : Option (List Nat)) :
+    updateSignature β revealed C sk pk bases revIdx = (do
+      let ext ← extOf C revealed pk bases revIdx
+      let e2n ← ofOpt (invMod β.e ((sk.p - 1) * (sk.q - 1)))
+      let bs ← pw pk.b β.rprime pk.N
+      let v ← pw (ext.value * bs * pk.c) e2n pk.N
+      pure ⟨β.e, β.rprime, v⟩) := rfl
+
+/-- Everything a successful `blind_sign` tells us. -/
+theorem blindSign_elim {cs : Suite} {pk : PublicKey} {sk : SecretKey} {bases : List Int} {π : ZKPoK}
+    {revealed : Option (List Int)} {C : Commitment} {Ctv : Option Int} {cpk : Option CommitmentPK}
+    {U : List Nat} {revIdx : Option (List Nat)} {β : BlindSignature} {t t' : List Draw}
+    (h : blindSign cs pk sk bases π revealed C Ctv cpk U revIdx t = .ok (β, t')) :
+    zkpokVerify cs π C.value Ctv pk bases cpk U t = .ok (true, t) ∧
+    ∃ ext d bs, extOf C revealed pk bases revIdx t = .ok (ext, t) ∧
+      (2 ^ (cs.le - 1) < β.e ∧ β.e < 2 ^ cs.le ∧ Int.gcd β.e ((sk.p - 1) * (sk.q - 1)) = 1) ∧
+      (0 ≤ β.rprime ∧ bitLen β.rprime = cs.ls) ∧
+      invMod β.e ((sk.p - 1) * (sk.q - 1)) = some d ∧ powMod pk.b β.rprime pk.N = some bs ∧
+      powMod (ext.value * bs * pk.c) d pk.N = some β.v := by
+  rw [blindSign_eq] at h
+  simp only [bind_ok_iff] at h
+  obtain ⟨ok, t1, hzk, h⟩ := h
+  have ht1 := (zkpokVerify_tapeFree _ _ _ _ _ _ _ _).tape_eq hzk
+  subst ht1
+  cases ok with
+  | false => cases h
+  | true =>
+    rw [not_true_if] at h
+    simp only [bind_ok_iff, pw_ok_iff, ofOpt_ok_iff, pure_ok_iff] at h
+    obtain ⟨ext, t2, hext, k, t3, hk, e, t4, he, r', t5, hr', d, t6, ⟨hd, rfl⟩, bs, t7, ⟨hbs, rfl⟩,
+      v, t8, ⟨hv, rfl⟩, rfl, rfl⟩ := h
+    have ht2 := (extOf_tapeFree _ _ _ _ _).tape_eq hext
+    subst ht2
+    obtain ⟨hr0, hrl, -⟩ := randomBits_elim hr'
+    exact ⟨hzk, ext, d, bs, hext, drawE_elim _ _ _ _ he, ⟨hr0, hrl⟩, hd, hbs, hv⟩
+
+/-- The signature equation: a value `v = (ext · b^{r'} · c)^{1/e}` computed by the issuer on an extended
+commitment `ext ≡ Π_i a_i^{m_i} · b^r`, unblinded with `r`, verifies on the full vector. -/
+theorem blind_verify_core (hA : ArithOK) (cs : Suite) {pk : PublicKey} {sk : SecretKey}
+    {bases msgs : List Int} (hk : KeysOK pk sk) (hau : ∀ a ∈ bases, Int.gcd a pk.N = 1)
+    (hb : msgs.length ≤ bases.length) (hm : ∀ m ∈ msgs, 0 ≤ m ∧ m < 2 ^ cs.lm)
+    {C ext : Commitment} {β : BlindSignature} (hr0 : 0 ≤ C.randomness)
+    (hext : ext.value ≡ rep bases msgs (List.range msgs.length) * pk.b ^ C.randomness.toNat [ZMOD pk.N])
+    (he : 2 ^ (cs.le - 1) < β.e ∧ β.e < 2 ^ cs.le) (hrp : 0 ≤ β.rprime) {d bs : Int}
+    (hd : invMod β.e ((sk.p - 1) * (sk.q - 1)) = some d) (hbs : powMod pk.b β.rprime pk.N = some bs)
+    (hv : powMod (ext.value * bs * pk.c) d pk.N = some β.v) (s : List Draw) :
+    verifyMultiattr cs (unblindSign β C) pk bases msgs s = .ok (true, s) := by
+  have hN1 := hk.one_lt_N
+  have hN : 0 < pk.N := by omega
+  have hN' : pk.N ≠ 0 := by omega
+  have he0 : 0 ≤ β.e := le_of_lt (lt_trans (by positivity) he.1)
+  obtain ⟨hd0, -, hed⟩ := hA.invMod_some _ _ _ (phi_gt_one hk.hp hk.hq hk.hpq) hd
+  rw [hA.powMod_nonneg _ _ _ hN hrp] at hbs
+  rw [hA.powMod_nonneg _ _ _ hN hd0] at hv
+  have hbs' := (Option.some.inj hbs).symm
+  have hv' := (Option.some.inj hv).symm
+  have hbu := cop_iff.1 hk.hb
+  have hXu : IsCoprime (ext.value * bs * pk.c) pk.N := by
+    refine ((cop_of_modEq hext ((cop_rep hau msgs _).mul_left hbu.pow_left)).mul_left ?_).mul_left
+      (cop_iff.1 hk.hc)
+    rw [hbs']; exact cop_emod hbu.pow_left
+  have hroot := euler_root hk.hp hk.hq hk.hpq hk.hN hXu he0 hd0 hed
+  obtain ⟨x, hxe, hx0, hrun⟩ := verifyMultiattr_run hA cs (unblindSign β C) pk bases msgs hN hb hm he
+    (add_nonneg hr0 hrp) s
+  rw [hrun]
+  congr 2
+  simp only [unblindSign]
+  rw [beq_iff_eq, tmod_nonneg _ (mul_nonneg (mul_nonneg hx0 (Int.emod_nonneg _ hN')) hk.hc0)]
+  show _ ≡ _ [ZMOD pk.N]
+  rw [hv']
+  refine hroot.trans ?_
+  rw [pow_toNat_add _ hr0 hrp, hbs']
+  have e1 : ext.value * (pk.b ^ β.rprime.toNat % pk.N) * pk.c ≡
+      rep bases msgs (List.range msgs.length) * pk.b ^ C.randomness.toNat * pk.b ^ β.rprime.toNat * pk.c
+        [ZMOD pk.N] := (hext.mul (Int.mod_modEq _ _)).mul_right _
+  have e2 : x * (pk.b ^ C.randomness.toNat * pk.b ^ β.rprime.toNat % pk.N) * pk.c ≡
+      rep bases msgs (List.range msgs.length) * (pk.b ^ C.randomness.toNat * pk.b ^ β.rprime.toNat) * pk.c
+        [ZMOD pk.N] := (hxe.mul (Int.mod_modEq _ _)).mul_right _
+  refine e1.trans (Int.ModEq.trans ?_ e2.symm)
+  rw [mul_assoc (rep bases msgs (List.range msgs.length))]
+
+/-! ## 13. What an accepting `verify_multiattr` means; cancellation -/
+
+theorem rep_congr (bases : List Int) {m₁ m₂ : List Int} {ix : List Nat}
+    (h : ∀ i ∈ ix, m₁.getD i 0 = m₂.getD i 0) : rep bases m₁ ix = rep bases m₂ ix := by
+  induction ix with
+  | nil => rfl
+  | cons i is ih =>
+    rw [rep_cons, rep_cons, h i List.mem_cons_self, ih (fun j hj => h j (List.mem_cons_of_mem _ hj))]
+
+theorem modEq_cancel_right {a b u n : Int} (hu : IsCoprime u n) (h : a * u ≡ b * u [ZMOD n]) :
+    a ≡ b [ZMOD n] := by
+  obtain ⟨p, q, hpq⟩ := hu
+  have h1 : a * u * p ≡ b * u * p [ZMOD n] := h.mul_right p
+  have ha : a * u * p = a - n * (a * q) := by linear_combination a * hpq
+  have hb : b * u * p = b - n * (b * q) := by linear_combination b * hpq
+  rw [ha, hb] at h1
+  have e1 : a - n * (a * q) ≡ a [ZMOD n] := by
+    apply Int.modEq_iff_dvd.2; exact ⟨a * q, by ring⟩
+  have e2 : b - n * (b * q) ≡ b [ZMOD n] := by
+    apply Int.modEq_iff_dvd.2; exact ⟨b * q, by ring⟩
+  exact e1.symm.trans (h1.trans e2)
+
+theorem modEq_cancel_left {a b u n : Int} (hu : IsCoprime u n) (h : u * a ≡ u * b [ZMOD n]) :
+    a ≡ b [ZMOD n] := by
+  rw [mul_comm u a, mul_comm u b] at h; exact modEq_cancel_right hu h
+
+/-- `pow_mod` of a unit is a unit, whatever the sign of the exponent. -/
+theorem powMod_unit (hA : ArithOK) {b e n x : Int} (hn : 1 < n) (hb : Int.gcd b n = 1)
+    (h : powMod b e n = some x) : IsCoprime x n := by
+  have hn0 : 0 < n := by omega
+  rcases le_or_gt 0 e with he | he
+  · rw [hA.powMod_nonneg b e n hn0 he] at h
+    rw [← Option.some.inj h]
+    exact cop_emod (cop_iff.1 hb).pow_left
+  · rw [hA.powMod_neg b e n hn0 he] at h
+    obtain ⟨bi, hbi, -, -, hmul⟩ := invMod_of_gcd hA hn hb
+    rw [hbi] at h
+    simp only [Option.map_some, Option.some.injEq] at h
+    rw [← h]
+    have hu : IsCoprime bi n := by
+      refine ⟨b, -(b * bi / n), ?_⟩
+      have := Int.emod_add_mul_ediv (b * bi) n
+      rw [hmul] at this
+      linarith
+    exact cop_emod hu.pow_left
+
+/-- Everything an accepting `verify_multiattr` tells us (for any `σ`, any sign of `σ.s`). -/
+theorem verifyMultiattr_true_elim (hA : ArithOK) {cs : Suite} {σ : Signature} {pk : PublicKey}
+    {bases msgs : List Int} {t t' : List Draw}
+    (h : verifyMultiattr cs σ pk bases msgs t = .ok (true, t')) :
+    msgs.length ≤ bases.length ∧ (∀ m ∈ msgs, 0 ≤ m ∧ m < 2 ^ cs.lm) ∧
+      (2 ^ (cs.le - 1) < σ.e ∧ σ.e < 2 ^ cs.le) ∧
+      ∃ x bs, x ≡ rep bases msgs (List.range msgs.length) [ZMOD pk.N] ∧
+        powMod pk.b σ.s pk.N = some bs ∧ σ.v ^ σ.e.toNat % pk.N = tmod (x * bs * pk.c) pk.N := by
+  unfold verifyMultiattr at h
+  split at h
+  · cases h
+  rename_i hlen
+  simp only [bind_ok_iff, pw_ok_iff] at h
+  obtain ⟨lhs, t1, ⟨hl, rfl⟩, P, t2, hP, bs, t3, ⟨hbs, rfl⟩, h⟩ := h
+  have hN := powMod_pos hl
+  split at h
+  · simp only [pure_ok_iff] at h; exact absurd h.1 (by decide)
+  rename_i hany
+  split at h
+  · simp only [pure_ok_iff] at h; exact absurd h.1 (by decide)
+  rename_i he
+  simp only [pure_ok_iff, beq_iff_eq] at h
+  have hm : ∀ m ∈ msgs, 0 ≤ m ∧ m < 2 ^ cs.lm := by
+    intro m hmm
+    have := hany
+    simp only [List.any_eq_true, not_exists, not_and, decide_eq_true_eq] at this
+    have := this m hmm
+    omega
+  have he' : 2 ^ (cs.le - 1) < σ.e ∧ σ.e < 2 ^ cs.le := by omega
+  have he0 : 0 ≤ σ.e := le_of_lt (lt_trans (by positivity) he'.1)
+  obtain ⟨x, hx, hxe, -⟩ := prodPow_run hA hN (by omega) (fun m hmm => (hm m hmm).1) msgs.length 0 1 t1
+    (by omega)
+  rw [List.drop_zero, hP] at hx
+  simp only [CRes.ok.injEq, Prod.mk.injEq] at hx
+  obtain ⟨rfl, rfl⟩ := hx
+  rw [hA.powMod_nonneg _ _ _ hN he0] at hl
+  refine ⟨by omega, hm, he', P, bs, by simpa [List.range_eq_range'] using hxe, hbs, ?_⟩
+  rw [Option.some.inj hl]; exact h.1
+
+/-- **A signature accepted for two attribute vectors** yields `Π a_i^{m_i} ≡ Π a_i^{m'_i} (mod N)`
+(a representation collision among the bases). No assumption on `σ`. -/
+theorem verify_two_vectors (hA : ArithOK) {cs : Suite} {σ : Signature} {pk : PublicKey}
+    {bases m₁ m₂ : List Int} (hN : 1 < pk.N) (hbu : Int.gcd pk.b pk.N = 1)
+    (hcu : Int.gcd pk.c pk.N = 1) {t₁ t₁' t₂ t₂' : List Draw}
+    (h₁ : verifyMultiattr cs σ pk bases m₁ t₁ = .ok (true, t₁'))
+    (h₂ : verifyMultiattr cs σ pk bases m₂ t₂ = .ok (true, t₂')) :
+    rep bases m₁ (List.range m₁.length) ≡ rep bases m₂ (List.range m₂.length) [ZMOD pk.N] := by
+  obtain ⟨-, -, -, x₁, bs₁, hx₁, hb₁, he₁⟩ := verifyMultiattr_true_elim hA h₁
+  obtain ⟨-, -, -, x₂, bs₂, hx₂, hb₂, he₂⟩ := verifyMultiattr_true_elim hA h₂
+  rw [hb₁] at hb₂
+  obtain rfl := Option.some.inj hb₂
+  have hu : IsCoprime (bs₁ * pk.c) pk.N := (powMod_unit hA hN hbu hb₁).mul_left (cop_iff.1 hcu)
+  have h : x₁ * (bs₁ * pk.c) ≡ x₂ * (bs₁ * pk.c) [ZMOD pk.N] := by
+    rw [← mul_assoc, ← mul_assoc]
+    exact (tmod_modEq _ _).symm.trans ((by rw [← he₁, ← he₂] : _ = _) ▸ tmod_modEq _ _)
+  exact hx₁.symm.trans ((modEq_cancel_right hu h).trans hx₂)
+
+/-- `a^m ≡ a^{m'}` for a unit `a` and `m ≠ m'` gives a multiple of the order of `a`. -/
+theorem order_of_pow_eq {a N m m' : Int} (ha : IsCoprime a N) (hm : 0 ≤ m) (hm' : 0 ≤ m')
+    (hne : m ≠ m') (h : a ^ m.toNat ≡ a ^ m'.toNat [ZMOD N]) : OrderRelation N a := by
+  have key : ∀ {x y : Int}, 0 ≤ y → y < x → a ^ x.toNat ≡ a ^ y.toNat [ZMOD N] → OrderRelation N a := by
+    intro x y hy hxy hxy'
+    refine ⟨(x - y).toNat, by omega, ?_⟩
+    have hsplit : a ^ x.toNat = a ^ y.toNat * a ^ (x - y).toNat := by
+      rw [← pow_add]; congr 1; omega
+    rw [hsplit] at hxy'
+    have : a ^ y.toNat * a ^ (x - y).toNat ≡ a ^ y.toNat * 1 [ZMOD N] := by simpa using hxy'
+    exact modEq_cancel_left ha.pow_left this
+  rcases lt_or_gt_of_ne hne with hlt | hgt
+  · exact key hm hlt h.symm
+  · exact key hm' hgt h
+
 end Zk.ClSigma
